@@ -58,7 +58,11 @@ class Collector(object):
         for k in known:
             for fp in k.get('fingerprints', []):
                 known_fps[fp] = k
+        import glob
         import re
+        for stale in glob.glob(os.path.join(REPLAY_DIR,
+                                            '%s-*.json' % self.prop)):
+            os.remove(stale)
         patterns = []
         for k in known:
             for pat in k.get('fingerprint_patterns', []):
